@@ -17,6 +17,54 @@ META = {
 HANDLERS = ('unary', 'server_streaming', 'client_streaming', 'streaming')
 
 
+def check_poll_frame_outcomes(R, tonic, rule):
+    """the two outcomes of StreamingInner::poll_frame: "more data buffered" for every data frame, "stop reading" only for a trailers
+    frame / the end of the body: after the trailers the body is not polled again (a transport error arriving behind the trailers
+    would replace the status they carried), and a data frame never ends the stream"""
+    pfr = tonic.body('decode::StreamingInner::poll_frame')
+    R.saw(pfr)
+    # outcome table of poll_frame: Ok(Some(())) = "data arrived, run the decoder again", Ok(None) = "the body is over": a data frame
+    # (empty or not) is never reported as the end of the body
+    def last_guard(bb_):
+        g = pfr.edge_guards(bb_)
+        if not g:
+            return ('none', None)
+        s_, vals, tm = g[-1]
+        truth = not (vals == [0])
+        c = strip_refs(tm)
+        if tm[0] == 'discr':
+            inner = strip_refs(tm[1])
+            nm = inner[3] if is_call(inner) and len(inner) > 3 and isinstance(inner[3], str) else ('poll' if term_contains(tm, lambda x: is_call(x, name='poll_frame')) else show(tm)[:30])
+            return ('discr:%s' % (inner[1].split('::')[-1] if is_call(inner) else nm), vals)
+        if is_call(c):
+            return (c[1].split('::')[-1], truth)
+        return (show(tm)[:30], vals)
+    # the two outcomes may be spelled Some(())/None or as the variants of a private two-valued enum: call the one produced for a data
+    # frame CONTINUE; every other constant outcome is STOP
+    def token(v_):
+        v_ = strip_refs(v_)
+        if v_[0] == 'agg' and v_[1].get('variant'):
+            return v_[1]['variant']
+        return None
+    oks = [(bb_, i_, pfr.origin(ops_[0])) for bb_, i_, p_, a_, ops_ in mirlib.aggregates(pfr, 'result::Result', 'Ok')]
+    data_tokens = {token(v) for bb_, i_, v in oks if last_guard(bb_) in (('is_data', True), ('discr:into_data', [0]))}
+    CONT = list(data_tokens)[0] if len(data_tokens) == 1 and None not in data_tokens else None
+    nsome = 0
+    for bb_, i_, v in oks:
+        lg = last_guard(bb_)
+        tk_ = token(v)
+        if tk_ is None or CONT is None:
+            R.bad(rule, 'poll_frame-outcome-unrecognised', site(pfr, bb_, i_), 'Ok(%s): not one of two constant outcomes — a data frame could be reported as the end of the body' % show(v)[:80], kind='UNRECOGNISED')
+        elif tk_ == CONT:
+            nsome += 1
+            R.check(lg in (('is_data', True), ('discr:into_data', [0])), rule, 'data-frame->continue', site(pfr, bb_, i_), 'the "more data buffered" outcome (%s) is produced for every data frame (decided by %r alone)' % (CONT, lg))
+        else:
+            R.check(lg in (('is_trailers', True), ('has_remaining', False), ('is_empty', True), ('eq', True), ('discr:into_trailers', [0])), rule, 'end-of-body-only-when:%s' % lg[0], site(pfr, bb_, i_),
+                    'the "stop reading" outcome (%s) only for a trailers frame, the end of the body with an empty buffer, or a cancelled request: decided by %r' % (tk_, lg))
+    R.check(nsome >= 1, rule, 'data-frame->continue:exists', site(pfr), '"more data buffered" outcomes: %d' % nsome)
+
+
+
 def run(R):
     tonic = R.crate('tonic')
 
@@ -233,45 +281,7 @@ def run(R):
         pt = pfr.calls(name='put')
         R.check(len(pt) == 1 and mentions_field(pfr.origin(pt[0][1]['args'][0]), decode_buf_fields(tonic)[0]) and mentions_call(pfr.origin(pt[0][1]['args'][1]), name='into_data'), 'C02.R4', 'data-appended', site(pfr), 'data frames are appended to buf')
 
-        # outcome table of poll_frame: Ok(Some(())) = "data arrived, run the decoder again", Ok(None) = "the body is over": a data frame
-        # (empty or not) is never reported as the end of the body
-        def last_guard(bb_):
-            g = pfr.edge_guards(bb_)
-            if not g:
-                return ('none', None)
-            s_, vals, tm = g[-1]
-            truth = not (vals == [0])
-            c = strip_refs(tm)
-            if tm[0] == 'discr':
-                inner = strip_refs(tm[1])
-                nm = inner[3] if is_call(inner) and len(inner) > 3 and isinstance(inner[3], str) else ('poll' if term_contains(tm, lambda x: is_call(x, name='poll_frame')) else show(tm)[:30])
-                return ('discr:%s' % (inner[1].split('::')[-1] if is_call(inner) else nm), vals)
-            if is_call(c):
-                return (c[1].split('::')[-1], truth)
-            return (show(tm)[:30], vals)
-        # the two outcomes may be spelled Some(())/None or as the variants of a private two-valued enum: call the one produced for a data
-        # frame CONTINUE; every other constant outcome is STOP
-        def token(v_):
-            v_ = strip_refs(v_)
-            if v_[0] == 'agg' and v_[1].get('variant'):
-                return v_[1]['variant']
-            return None
-        oks = [(bb_, i_, pfr.origin(ops_[0])) for bb_, i_, p_, a_, ops_ in mirlib.aggregates(pfr, 'result::Result', 'Ok')]
-        data_tokens = {token(v) for bb_, i_, v in oks if last_guard(bb_) in (('is_data', True), ('discr:into_data', [0]))}
-        CONT = list(data_tokens)[0] if len(data_tokens) == 1 and None not in data_tokens else None
-        nsome = 0
-        for bb_, i_, v in oks:
-            lg = last_guard(bb_)
-            tk_ = token(v)
-            if tk_ is None or CONT is None:
-                R.bad('C02.R4', 'poll_frame-outcome-unrecognised', site(pfr, bb_, i_), 'Ok(%s): not one of two constant outcomes — a data frame could be reported as the end of the body' % show(v)[:80], kind='UNRECOGNISED')
-            elif tk_ == CONT:
-                nsome += 1
-                R.check(lg in (('is_data', True), ('discr:into_data', [0])), 'C02.R4', 'data-frame->continue', site(pfr, bb_, i_), 'the "more data buffered" outcome (%s) is produced for every data frame (decided by %r alone)' % (CONT, lg))
-            else:
-                R.check(lg in (('is_trailers', True), ('has_remaining', False), ('is_empty', True), ('eq', True), ('discr:into_trailers', [0])), 'C02.R4', 'end-of-body-only-when:%s' % lg[0], site(pfr, bb_, i_),
-                        'the "stop reading" outcome (%s) only for a trailers frame, the end of the body with an empty buffer, or a cancelled request: decided by %r' % (tk_, lg))
-        R.check(nsome >= 1, 'C02.R4', 'data-frame->continue:exists', site(pfr), '"more data buffered" outcomes: %d' % nsome)
+        check_poll_frame_outcomes(R, tonic, 'C02.R4')
 
     with R.guard('C02.R4', 'status-writer'):
         import C04
@@ -443,3 +453,8 @@ def run(R):
         R.check(okn, 'C02.R7', 'missing-request-message->internal', site(mu), 'no request message -> Status::internal')
         fh = mu.calls(name='from_http_parts')
         R.check(len(fh) == 1 and term_contains(mu.origin(fh[0][1]['args'][0]), lambda x: is_call(x, name='into_parts')), 'C02.R7', 'request-built-from-parts', site(mu), 'Request::from_http_parts(parts of the incoming request, message)')
+
+    # ---------------------------------------------------------------- R8 a compressed message is one the peer can inflate
+    with R.guard('C02.R8'):
+        import C01
+        C01.run_codec_tables(R, tonic, tag='@C02', rule='C02.R8')
